@@ -13,7 +13,8 @@ GView == <<vAssets, {[cls |-> vAssocs[k].cls, l |-> vAssocs[k].l, r |-> vAssocs[
 Order == [k \in DOMAIN vAssets |-> vAssets[k].h]
 Exp == GraphExp(Lng, ModelVal, Order)
 MinAssets == atoi(EnvOr("VERIF_MINASSETS", "1"))
-EmitG == Len(vAssets) >= MinAssets =>
+MinEdges == atoi(EnvOr("VERIF_MINEDGES", "0"))
+EmitG == (Len(vAssets) >= MinAssets /\ (MinEdges = 0 \/ Cardinality(EdgesHi(Lng, ModelVal)) >= MinEdges)) =>
            PrintT(ToJson([lang |-> EnvOr("VERIF_LANG", "LTiny"), assets |-> vAssets, assocs |-> vAssocs, exp |-> Exp]))
 \* spec-level theorems over every explored pair
 SpecEdges == EdgesWellFormed(Lng, ModelVal)
